@@ -435,7 +435,7 @@ def gen_cases(rng, tier):
         if c.get('shape') and not isinstance(c.get('mask'), bool) and 'hist' not in c and rng.random() < 0.2:
             c['hist'] = rng.randrange(1, 5000)
         elif c.get('shape') and 'layout' not in c and rng.random() < 0.3:
-            c['layout'] = rng.choice(['F', 'strided', 'reversed'])
+            c['layout'] = rng.choice(['F', 'strided', 'reversed', 'swapped'])
     return cases
 
 
@@ -485,6 +485,9 @@ def build(c, Pm):
             arr = big[..., ::2]
         elif lay == 'reversed':
             arr = arr[::-1].copy()[::-1]
+        elif lay == 'swapped' and arr.dtype.kind in 'iu' and arr.dtype.itemsize > 1:
+            # integers in the byte order that is not the machine's (seeded change C11-L: the order was not recorded)
+            arr = arr.astype(arr.dtype.newbyteorder('>' if arr.dtype.byteorder in ('=', '<', '|') else '<'))
     q = cls(arr, mask, **kw)
     if c['digits'] is not None and c.get('digits_first'):
         # the derivatives are attached AFTER set_pickle_digits: they carry no digits of their own and
